@@ -767,6 +767,70 @@ func runC17(c *an.Ctx) {
 			return ""
 		},
 	})
+	decide(c, "C17-R4", fw+"(*UpstreamPlain).readMsg", an.DecideCfg{
+		Dom: an.Domain{"(p1 == \"tcp\")": an.Bools, "lenerr": an.Bools, "readerr": an.Bools, "(n < 17)": an.Bools, "unpackerr": an.Bools},
+		OnCall: func(it *an.Interp, name string, args []an.AV) (an.AV, bool) {
+			errOr := func(feat, tag string) an.AV {
+				if it.Feature(feat).IsTrue() {
+					return an.NonNil(tag)
+				}
+				return an.Nil()
+			}
+			switch {
+			case name == "encoding/binary.Read":
+				if len(args) == 3 && args[2].Kind == an.KAddr {
+					it.SetMem(args[2].Key, an.Sym("length"))
+				}
+				return errOr("lenerr", "lenErr"), true
+			case name == "io.ReadFull" || name == "io.ReadAtLeast":
+				return an.AV{Kind: an.KTuple, Tup: []an.AV{an.Sym("n"), errOr("readerr", "readErr")}}, true
+			case name == "p2.Read":
+				return an.AV{Kind: an.KTuple, Tup: []an.AV{an.Sym("n"), errOr("readerr", "readErr")}}, true
+			case strings.HasSuffix(name, "dns.Msg).Unpack"):
+				return errOr("unpackerr", "unpackErr"), true
+			case name == "fmt.Errorf":
+				return an.NonNil("wrapped"), true
+			}
+			return an.AV{}, false
+		},
+		Expect: func(f an.Features, o an.AOutcome) string {
+			tcp := f.B("(p1 == \"tcp\")")
+			var reads []string
+			unpacked := ""
+			for _, e := range o.Effects {
+				if e.Kind != "call" {
+					continue
+				}
+				switch {
+				case e.Name == "encoding/binary.Read", e.Name == "io.ReadFull", e.Name == "io.ReadAtLeast", e.Name == "p2.Read":
+					reads = append(reads, e.Name+"("+strings.Join(e.Args, ",")+")")
+				case strings.HasSuffix(e.Name, "dns.Msg).Unpack"):
+					unpacked = e.Args[len(e.Args)-1]
+				}
+			}
+			got := strings.Join(reads, " ")
+			fail := f.B("readerr") || (tcp && f.B("lenerr")) || f.B("(n < 17)") || f.B("unpackerr")
+			if tcp {
+				// a stream: the two-byte length, then exactly that many bytes, however many reads it takes
+				want := "encoding/binary.Read(p2,nonnil:encoding/binary.BigEndian,&local#1)"
+				if !f.B("lenerr") {
+					want += " io.ReadFull(p2,p3[:length])"
+				}
+				if got != want {
+					return "on a stream the length prefix and then the whole announced message are read (io.ReadFull: a single Read may return a part of it); want " + want + ", got " + got
+				}
+			} else if got != "p2.Read(p3)" {
+				return "one datagram read into the whole buffer; got " + got
+			}
+			if fail != (len(o.Ret) == 2 && o.Ret[0].Kind == an.KNil && o.Ret[1].Kind != an.KNil) {
+				return fmt.Sprintf("failure=%v; got %s", fail, o.RetString())
+			}
+			if !fail && unpacked != "p3[:n]" {
+				return "the bytes actually read are unpacked; got " + unpacked
+			}
+			return ""
+		},
+	})
 	decide(c, "C17-R4", fw+"validatePlainResponse", an.DecideCfg{
 		Dom: an.Domain{"(p0.MsgHdr.Id == p1.MsgHdr.Id)": an.Bools, "len(p1.Question)": an.Ints(0, 1, 2),
 			"(p0.Question[0].Qtype == p1.Question[0].Qtype)": an.Bools, "fold": an.Bools},
